@@ -135,6 +135,20 @@ pub fn kh_total<R: KhRing>(l: &Link, h: i64, t: i64, reduced: bool, cfg: &BuildC
     total_of(&KhHomology::from(&c))
 }
 
+/// truncations: (KhHomology::truncated(r0..=r1), homology of KhComplex::truncated(r0..=r1), h_range of the complex,
+/// every generator's h-degree lies in h_range and its q-degree in q_range)
+pub fn kh_truncations<R: KhRing>(l: &Link, h: i64, t: i64, reduced: bool, cfg: &BuildCfg, r0: isize, r1: isize) -> (Total, Total, (isize, isize), bool) where for<'x> &'x R: EucRingOps<R> {
+    let c = build_complex::<R>(l, &R::from_i(h), &R::from_i(t), reduced, cfg);
+    let hr = c.h_range();
+    let qr = c.q_range();
+    let mut inside = true;
+    for i in c.support() { for x in c[i].raw_gens().iter() { if x.h_deg() != i || !hr.contains(&i) || !qr.contains(&x.q_deg()) { inside = false } } }
+    let hom = KhHomology::from(&c);
+    let a = total_of(&hom.truncated(r0..=r1));
+    let b = total_of(&KhHomology::from(&c.truncated(r0..=r1)));
+    (a, b, (*hr.start(), *hr.end()), inside)
+}
+
 /// route A: homology of the bigraded pieces of the complex
 pub fn kh_table_pieces<R: KhRing>(l: &Link, reduced: bool, cfg: &BuildCfg) -> Table where for<'x> &'x R: EucRingOps<R> {
     let c = build_complex::<R>(l, &R::from_i(0), &R::from_i(0), reduced, cfg);
